@@ -23,7 +23,7 @@ ASSUMPTIONS = ['main pass uses alias-free key pools for directory archives (dist
                'JSON codecs: str keys and JSON-native values; source-text codecs: ascii, finite floats, importable names; sqlite: str/int/bytes keys and scalar values',
                'nan is not generated', 'hdf / sqlalchemy back ends are not installed']
 
-N = {'quick': 1400, 'thorough': 40000}
+N = {'quick': 1400, 'thorough': 15000}
 EXCLUDED = {'failing-store ops on source-text archives (finding D9c, probed)': 'by construction', 'aliasing / slash keys for dir archives (findings D8a, D8b, probed)': 'by construction'}
 SHARDS = {'quick': 4, 'thorough': 16}
 
